@@ -933,9 +933,14 @@ def carrier_optim(ctx, runner, exe):
     if tab is None: return False
     _, mo = run_model(ctx, runner, write_cases(ctx, 'op_cond', [[70]]))
     S = lambda l: ''.join(chr(x) for x in l)
-    EV = {0: 'Pre', 1: 'Post', 2: 'Ret', 3: 'RetFail'}
+    EV = {0: 'Pre', 1: 'Post', 2: 'Ret', 3: 'RetFail', 4: 'Tgt', 5: 'TgtIdx'}
     failed = [(S(n), [EV[e] for e in w]) for n, w in mo[0]]
-    ctx.cov['optim_functions'] = [t['name'] for t in tab]
+    ctx.cov['optim_functions'] = [t['name'] for t in tab['rows']]
+    ctx.cov['optim_entry_points'] = [list(e) for e in tab['entries']]
+    for n, g, t in tab['entries']:
+        if t and not g:
+            ctx.violation('%s:sets-target-by-index-before-isReady' % n, 'public %s reaches optimizationSetTargetByIndex without the `if (!_isReady)` guard' % n,
+                          {'entry': n, 'theorem': 'C10_optim_balanced (entries_ok)'}, found_input=False)
     ctx.cov['optim_unbalanced_paths'] = failed
     if failed: ctx.level = 'partial'      # C10_optim_balanced (Properties.v) cannot hold
     cases = load_corpus(ctx, 70)
@@ -981,7 +986,7 @@ def carrier_optim(ctx, runner, exe):
     for name, w in failed:
         key = '%s:leaves-optimization-cache' % name
         if key not in witnesses:
-            ctx.violation(key, '%s has the exit path %s that leaves the optimisation cache prepared; no history exhibiting it was found' % (name, w),
+            ctx.violation(key, '%s has the exit path %s that breaks the protocol of the optimisation cache (left prepared, or target set by index while idle); no history exhibiting it was found' % (name, w),
                           {'function': name, 'path': w, 'theorem': 'C10_optim_history_independent / C10_optim_balanced'}, found_input=False)
     return found
 
@@ -1093,6 +1098,297 @@ def carrier_memo(ctx, runner, exe):
                               {'case': sx_str(c), 'call': k, 'correspondence': 'coq/C10/ModelMemo.v select vs ANeigh::select'}, found_input=False); break
     return found
 
+NG_CLS = {'NeighMoving': 0, 'NeighUnique': 1, 'NeighBench': 2}
+NG_OPS = {'attach': 0, 'setFlagXvalid': 2, 'setBallSearch': 5, 'setIsChanged': 6, 'reset': 7, 'setRankColCok': 8, 'setNMaxi': 9, 'setNMini': 10}
+def ng_pretty(c):
+    cls = [k for k, v in NG_CLS.items() if v == c[1]][0]
+    out = ['%s ng (%s); data at %s%s' % (cls, c[2], [(float(undy(x)), float(undy(y))) for x, y in zip(c[3][0], c[3][1])], ' = targets' if c[5] else '')]
+    inv = {v: k for k, v in NG_OPS.items()}
+    for o in c[6]:
+        out.append('ng.select(%d)' % o[1] if o[0] == 1 else 'ng.%s(%s)' % (inv[o[0]], ', '.join(str(x) for x in o[1:]) if o[0] != 0 else 'dbin, dbout'))
+    return out
+
+def carrier_neigh(ctx, runner, exe):
+    """member caches of the neighbourhood classes: conditions of the generated tables, and histories on real objects"""
+    rng = ctx.rng; quick = ctx.quick()
+    tab = ctx.ng_tab
+    if tab is None: return False
+    _, mo = run_model(ctx, runner, write_cases(ctx, 'ng_cond', [[84]]))
+    S = lambda l: ''.join(chr(x) for x in l)
+    rows, bad_scratch, statics, entries_ok = mo[0]
+    byname = {t['cls']: t for t in tab}
+    # owner of a setter: ANeigh when it is defined there
+    base = load_translator('C10_neighgraph').class_info(REPO, 'ANeigh')[1]
+    fail_keys = {}
+    for name, fails, pol_ok in rows:
+        t = byname[S(name)]
+        for f in fails:
+            if f[0] == 1:
+                st = t['setters'][f[1]][0]
+                owner = 'ANeigh' if (st in base and st != 'select' and not (st == 'attach')) else t['cls']
+                key = ('%s::hasChanged:memo-reused-for-another-target' % t['cls']) if st == 'select' else '%s::%s-stale-caches' % (owner, st)
+            else: key = '%s:cache-table-shape' % t['cls']
+            fail_keys.setdefault(key, []).append((t['cls'], f))
+        if not pol_ok: fail_keys.setdefault('%s::hasChanged:memo-reused-for-another-target' % t['cls'], []).append((t['cls'], 'policy ' + t['policy']))
+    bad_policy = set(NG_CLS[S(name)] for name, fails, pol_ok in rows if not pol_ok and S(name) in NG_CLS)
+    if fail_keys: ctx.level = 'partial'       # C10_neigh_cache_ok (Properties.v) cannot hold
+    ctx.cov['neigh_cache_failed'] = {k: len(v) for k, v in fail_keys.items()}
+    for n in bad_scratch:
+        ctx.violation('ANeigh:scratch-read-before-write:' + S(n), 'scratch member read before it is written: ' + S(n), {'theorem': 'C10_neigh_scratch_dead'}, found_input=False)
+    # ---- histories
+    def data(n):
+        pts = rng.sample([(x, y) for x in range(0, 6) for y in (0, 0, 3, 3, 7)], n)
+        pts = list(dict.fromkeys(pts))
+        return [[dy(p[0]) for p in pts], [dy(p[1]) for p in pts], [dy(rng.randint(-3, 3)) for _ in pts]]
+    def params(cls):
+        return [rng.randint(2, 4), dy(rng.choice([3, 5, 50])), 1, 1] if cls == 0 else ([] if cls == 1 else [dy(rng.choice([1, 2]))])
+    cases = load_corpus(ctx, 83); meta = ['corpus'] * len(cases)
+    for cls in (0, 1, 2):
+        for rep in range(3):
+            d = data(6); n = len(d[0]); p = params(cls)
+            a, b = rng.sample(range(n), 2)
+            T = [[0], [1, a], [1, b], [1, a]]
+            cases.append([83, cls, p, d, [], 1, T]); meta.append('targets')
+            cases.append([83, cls, p, d, [], 1, [[2, 1]] + T]); meta.append('targets-xvalid')
+            cases.append([83, cls, p, d, [], 1, [[2, 1], [0], [1, a], [7], [1, a]]]); meta.append('reset')
+            tg = [[dy(0.5), dy(2.5)], [dy(0.5), dy(0.5)], [dy(7), dy(8)]]      # targets off the data, carrying the collocated variable
+            cases.append([83, cls, p, d, tg, 0, [[8, [2]], [0], [1, 0], [1, 0], [1, 1]]]); meta.append('colcok')
+            for st in ([2, 1], [5, 1, 10], [9, 2], [10, 9], [6], [7]):
+                if st[0] in (9, 10) and cls != 0: continue
+                cases.append([83, cls, p, d, [], 1, [[0], [1, a], st, [1, a]]]); meta.append('setter')
+                cases.append([83, cls, p, d, [], 1, [[0], st, [1, a], [1, b]]]); meta.append('setter-first')
+    for _ in range(120 if quick else 2500):
+        cls = rng.choice([0, 0, 1, 2]); d = data(rng.randint(4, 7)); n = len(d[0])
+        ops = [[0]] if rng.random() < .8 else []
+        for _ in range(rng.randint(2, 8)):
+            u = rng.random()
+            if u < .55: ops.append([1, rng.randrange(n)])
+            elif u < .65: ops.append([0])
+            elif u < .75: ops.append([2, rng.randint(0, 1)])
+            elif u < .82: ops.append([5, rng.randint(0, 1), rng.choice([2, 10])])
+            elif u < .88 and cls == 0: ops.append([9, rng.randint(1, 4)])
+            elif u < .94: ops.append([6])
+            else: ops.append([7])
+        ops.append([1, rng.randrange(n)])
+        cases.append([83, cls, params(cls), d, [], 1, ops]); meta.append('random'); ctx.dist('neigh_cls%d' % cls)
+    rc, impl = run_impl(ctx, exe, write_cases(ctx, 'neigh', cases), timeout=3000)
+    # model: same histories on the generated tables
+    def model_ops(c):
+        t = byname[[k for k, v in NG_CLS.items() if v == c[1]][0]]
+        ix = {n: i for i, n in enumerate(t['inputs'])}; sx_ = {s_[0]: i for i, s_ in enumerate(t['setters'])}
+        inv = {v: k for k, v in NG_OPS.items()}
+        ver = [1]; out = []; attached = False
+        for o in c[6]:
+            if o[0] == 1:
+                if not attached: continue
+                out.append([0, sx_['select'], [[ix['target'], o[1] + 1]]]); out.append([1, 0])
+            else:
+                nm = inv[o[0]]
+                if nm not in sx_: continue
+                asg = []
+                if nm == 'attach':
+                    ver[0] += 1; attached = True
+                    asg = [[ix[x], ver[0]] for x in ('_dbin', '_dbout', '_dbgrid') if x in ix]
+                elif nm == 'setFlagXvalid': asg = [[ix['_flagXvalid'], o[1]]]
+                elif nm == 'setBallSearch': asg = [[ix[x], v] for x, v in (('_useBallSearch', o[1]), ('_ballLeafSize', o[2])) if x in ix]
+                elif nm == 'setNMaxi': asg = [[ix['_nMaxi'], o[1]]]
+                elif nm == 'setNMini': asg = [[ix['_nMini'], o[1]]]
+                elif nm == 'setRankColCok': asg = [[ix['_rankColCok'], 1 + len(o[1])]] if '_rankColCok' in ix else []
+                elif nm == 'reset': asg = [[ix[x], 0] for x in ('_flagXvalid', '_flagKFold', '_flagSimu', '_rankColCok') if x in ix]
+                out.append([0, sx_[nm], asg])
+        return [83, list(byname).index(t['cls']), out]
+    _, model = run_model(ctx, runner, write_cases(ctx, 'neigh_model', [model_ops(c) for c in cases]))
+    def first_bad(c, r):
+        for k, (o, x) in enumerate(zip(c[6], r)):
+            if o[0] == 1 and x != [-1] and (len(x) != 3 or x[0] != x[1]): return k
+        return None
+    def key_of(c, k):
+        cls = [n for n, v in NG_CLS.items() if v == c[1]][0]
+        inv = {v: n for n, v in NG_OPS.items()}
+        # the last call that is not a select between the previous select and this one; a select otherwise
+        if k > 0 and c[6][k - 1][0] == 1 and c[6][k - 1][1] == c[6][k][1] and any(o[0] == 8 for o in c[6][:k]):
+            return 'ANeigh::select:same-target-drops-collocated-rank'
+        for j in range(k - 1, -1, -1):      # a call that the generated table already denounces
+            if c[6][j][0] == 1: break
+            kk = 'ANeigh::%s-stale-caches' % inv[c[6][j][0]]
+            if kk in fail_keys: return kk
+        for j in range(k - 1, -1, -1):
+            if c[6][j][0] == 1: break
+            nm = inv[c[6][j][0]]
+            if nm in ('setIsChanged', 'attach', 'reset') : continue
+            return '%s::%s-stale-caches' % ('NeighMoving' if nm in ('setNMaxi', 'setNMini') else 'ANeigh', nm)
+        for j in range(k - 1, -1, -1):      # a setter called before the attach
+            nm = inv[c[6][j][0]] if c[6][j][0] != 1 else None
+            if nm == 'setBallSearch' and any(o[0] == 0 for o in c[6][:j]) and not any(o[0] == 0 for o in c[6][j:k]): return 'ANeigh::setBallSearch-stale-caches'
+        return '%s::hasChanged:memo-reused-for-another-target' % cls
+    found = False; witnesses = {}
+    for c, r, mo_, mt in zip(cases, impl, model, meta):
+        if r and r[-1] == [-996]:
+            witnesses.setdefault('ANeigh::select:crash', (c, 'the process crashes')); continue
+        sel = [k for k, o in enumerate(c[6]) if o[0] == 1 and k < len(r) and r[k] != [-1]]
+        for q, k in enumerate(sel):
+            ctx.count(sx_str([c[1], c[2], c[3], c[6][:k + 1]])[:2500], True)
+            same_i = r[k][0] == r[k][1]
+            if q < len(mo_) and mo_[q] and not same_i: pass
+            if not same_i:
+                if q < len(mo_) and mo_[q] == 1 and c[1] not in bad_policy and key_of(c, k) != 'ANeigh::select:same-target-drops-collocated-rank':      # (a wrong hasChanged() is outside the table: keyed separately)
+                    ctx.violation('model-drift:ANeigh:cache-table', 'the cache table generated from the neighbourhood classes says this select answers like a fresh object, the object does not',
+                                  {'case': sx_str(c), 'history': ng_pretty([c[0], c[1], c[2], c[3], c[4], c[5], c[6][:k + 1]])}, found_input=False)
+                key = key_of(c, k)
+                cur = [c[0], c[1], c[2], c[3], c[4], c[5], c[6][:k + 1]]
+                for _ in range(12):      # shrink: drop calls while the last select still differs for the same reason
+                    cands = [cur[:6] + [cur[6][:j] + cur[6][j + 1:]] for j in range(len(cur[6]) - 1)]
+                    rc2, rr = run_impl(ctx, exe, write_cases(ctx, 'neigh_shrink', cands))
+                    nxt = [cc for cc, x in zip(cands, rr) if x and len(x) == len(cc[6]) and len(x[-1]) == 3 and x[-1][0] != x[-1][1] and key_of(cc, len(cc[6]) - 1) == key]
+                    if not nxt: break
+                    cur = nxt[0]
+                rc2, rr = run_impl(ctx, exe, write_cases(ctx, 'neigh_shrunk', [cur]))
+                if key not in witnesses or len(cur[6]) < len(witnesses[key][0][6]):
+                    witnesses[key] = (cur, 'the last select hands out %s, a fresh object brought to the same inputs %s' % (rr[0][-1][0], rr[0][-1][1]))
+                break
+    for key, (c, text) in sorted(witnesses.items()):
+        found = True
+        ctx.violation(key, text, {'case': sx_str(c), 'history': ng_pretty(c)})
+        ctx.sample({'key': key, 'history': ng_pretty(c)})
+    for key, fs in sorted(fail_keys.items()):
+        if key not in witnesses:
+            ctx.violation(key, 'the cache table generated from the neighbourhood classes violates the condition of C10_cache_coherent (%s) and no history exhibiting it was found' % (fs[:3],),
+                          {'instances': [str(f) for f in fs], 'theorem': 'C10_cache_coherent / C10_neigh_cache_ok'}, found_input=False)
+    return found
+
+VARIO_FN = {0: 'Vario::computeFromDb', 1: 'db_vmap', 2: 'db_vcloud'}
+def carrier_statics(ctx, runner, exe):
+    """inventory of the static variables: every work area across a call needs a correspondence carrier for its file"""
+    rng = ctx.rng; quick = ctx.quick()
+    tab = ctx.st_tab
+    if tab is None: return False
+    nonconst = [t for t in tab if t['class'] != 'SConst']
+    ctx.cov['statics_scanned'] = len(tab); ctx.cov['statics_non_constant'] = [[t['file'], t['name'], t['class']] for t in nonconst]
+    COVERED = {'src/Variogram/Vario.cpp': 82, 'src/Variogram/VMap.cpp': 82, 'src/Variogram/VCloud.cpp': 82, 'src/Basic/MathFunc.cpp': 86}      # MathFunc: kinds 86 (mvndst) and 88 (besselk)
+    for t in nonconst:
+        if t['class'] == 'SUnknown':
+            ctx.violation('static:%s:%s' % (os.path.basename(t['file']), t['name']), 'a function-local static that keeps a value from one call to the next, or a static of unknown use (written by %s)' % t['writers'],
+                          {'static': t, 'theorem': 'C10_statics_classified'}, found_input=False)
+        if t['class'] in ('SCross', 'SCarry') and t['file'] not in COVERED:
+            ctx.violation('static:%s:%s' % (os.path.basename(t['file']), t['name']), 'a work area kept across calls (written by %s) and no correspondence history exercises its file' % t['writers'],
+                          {'static': t}, found_input=False)
+    found = False
+    cases = load_corpus(ctx, 82)
+    for _ in range(40 if quick else 800):
+        dbs = []
+        for k in range(3):
+            n = rng.randint(4, 9)
+            pts = rng.sample([(x, y) for x in range(0, 7) for y in range(0, 7)], n)
+            dbs.append([[dy(p[0]) for p in pts], [dy(p[1]) for p in pts], [dy(rng.randint(-4, 4)) for _ in pts]])
+        call = lambda: [rng.choice([0, 0, 1, 2]), rng.randrange(3), rng.randint(1, 3), rng.randint(2, 4), dy(rng.choice([1, 2]))]
+        cases.append([82, dbs, [call() for _ in range(rng.randint(1, 5))], call()])
+    rc, impl = run_impl(ctx, exe, write_cases(ctx, 'vario', cases), timeout=3000)
+    for c, r in zip(cases, impl):
+        if len(r) != 2: continue
+        ctx.count(sx_str(c)[:3000], True)
+        if r[0] != r[1]:
+            found = True
+            hist = ['%s(db%d, ...)' % (VARIO_FN[x[0]], x[1]) for x in c[2]] + ['%s(db%d, ...)   <- observed' % (VARIO_FN[c[3][0]], c[3][1])]
+            ctx.violation('static:variogram:%s-after-%s' % (VARIO_FN[c[3][0]], '+'.join(sorted(set(VARIO_FN[x[0]] for x in c[2])))),
+                          'the observed variogram calculation gives another result after this prefix than in a fresh process', {'case': sx_str(c), 'history': hist})
+    return found
+
+def carrier_ksys(ctx, runner, exe):
+    """per-target state of KrigingSystem::estimate: table conditions, and every target alone vs within the sequence"""
+    rng = ctx.rng; quick = ctx.quick()
+    tab = ctx.ks_tab
+    if tab is None: return False
+    _, mo = run_model(ctx, runner, write_cases(ctx, 'ks_cond', [[87]]))
+    fails = mo[0]
+    fail_keys = {}
+    for f in fails:
+        if f[0] == 1:
+            b = tab['blocks'][f[3]]
+            fail_keys['KrigingSystem::estimate:%s-not-redone-when-%s' % ('+'.join(c for c in b['calls'] if c != '_setLocalModel'), tab['atoms'][f[2]])] = f
+        else: fail_keys['KrigingSystem::estimate:reuse-table-shape'] = f
+    for m_, cls in tab['members']:
+        if cls == 'KCarried':
+            fail_keys['KrigingSystem::estimate:%s-carried-from-previous-target' % m_[1:]] = [2, m_]
+    ctx.cov['ksys_members'] = {c: sum(1 for _, k in tab['members'] if k.split()[0] == c) for c in ('KGuarded', 'KPerTarget', 'KCarried')}
+    if fail_keys: ctx.level = 'partial'
+    ctx.cov['ksys_reuse_blocks'] = [{'calls': b['calls'], 'cond': b['cond'], 'must_follow': b['need']} for b in tab['blocks']]
+    cases = load_corpus(ctx, 85)
+    for _ in range(45 if quick else 900):
+        n = rng.randint(4, 8)
+        pts = rng.sample([(x, y) for x in range(0, 6) for y in range(0, 6)], n)
+        dbin = [[dy(p[0]) for p in pts], [dy(p[1]) for p in pts], [dy(rng.randint(-4, 4)) for _ in pts], [dy(rng.choice([0.25, 0.5, 1])) for _ in pts]]
+        m = rng.randint(2, 5)
+        tg = [(rng.randint(2, 8) / 2, rng.randint(2, 8) / 2) for _ in range(m)]
+        if rng.random() < .5: tg = sorted(tg)
+        targets = [[dy(p[0]) for p in tg], [dy(p[1]) for p in tg]]
+        mode = rng.choice([0, 0, 1, 2])
+        cont = dy(rng.choice([0.25, 0.5, 0.75])) if (mode == 0 and rng.random() < .6) else []
+        model = [[rng.choice([0, 1]), dy(rng.choice([4, 6])), dy(rng.choice([3, 6])), dy(rng.choice([1, 2])), dy(0)]]
+        cases.append([85, model, dbin, targets, [rng.choice([3, 4, 10]), dy(rng.choice([4, 6, 20])), cont], mode])
+        ctx.dist('ksys_mode%d_%s' % (mode, 'continuous' if cont else 'standard'))
+    rc, impl = run_impl(ctx, exe, write_cases(ctx, 'kseq', cases), timeout=3000)
+    found = False; witnesses = {}
+    MODE = {0: 'kriging', 1: 'kribayes(constant drift)', 2: 'kribayes(linear drift)'}
+    for c, r in zip(cases, impl):
+        if len(r) != 2 or r[0] == [-996] or r[1] == [-996] or r[1] == [[-996]]: continue
+        seq, alone = r
+        if seq[0] != 0: continue
+        for t in range(len(c[3][0])):
+            ctx.count(sx_str([c[1], c[2], c[4], c[5], [c[3][0][:t + 1], c[3][1][:t + 1]]])[:3000], True)
+            a = alone[t]
+            vs = [undy(col[t]) for col in seq[1:]]; va = [undy(col[0]) for col in a[1:]]
+            if a[0] != 0 or len(vs) != len(va): continue
+            if any((x is None) != (y is None) or (x is not None and abs(x - y) > 1e-9 * (1 + abs(y))) for x, y in zip(vs, va)):
+                cont = bool(c[4][2])
+                key = None
+                for k in fail_keys:
+                    if (cont and k.endswith('continuous')) or (not cont and not k.endswith('continuous') and '-not-redone-' in k): key = k
+                if key is None and any('-carried-' in k for k in fail_keys): key = sorted(k for k in fail_keys if '-carried-' in k)[0]
+                key = key or 'KrigingSystem::estimate:target-alone-vs-sequence:%s%s' % (MODE[c[5]].split('(')[0], '-continuous' if cont else '')
+                # shrink: keep the offending target and drop the others while it still differs
+                keep = list(range(len(c[3][0])))
+                for drop in list(range(len(keep))):
+                    if drop == t or len(keep) <= 2: continue
+                    cand_idx = [i for i in keep if i != drop]
+                    cc = c[:3] + [[[c[3][0][i] for i in cand_idx], [c[3][1][i] for i in cand_idx]]] + c[4:]
+                    rc2, rr = run_impl(ctx, exe, write_cases(ctx, 'kseq_shrink', [cc]))
+                    if rr and len(rr[0]) == 2 and rr[0][0][0] == 0:
+                        tt = cand_idx.index(t)
+                        v1 = [undy(col[tt]) for col in rr[0][0][1:]]; v2 = [undy(col[0]) for col in rr[0][1][tt][1:]]
+                        if any(x is not None and y is not None and abs(x - y) > 1e-9 * (1 + abs(y)) for x, y in zip(v1, v2)): keep = cand_idx
+                cc = c[:3] + [[[c[3][0][i] for i in keep], [c[3][1][i] for i in keep]]] + c[4:]
+                if key not in witnesses or len(keep) < len(witnesses[key][0][3][0]):
+                    witnesses[key] = (cc, '%s, moving neighbourhood%s: target (%s, %s) gets %s when estimated alone and %s after the targets before it in the same call' % (
+                        MODE[c[5]], ' with the continuous option' if cont else '', float(undy(c[3][0][t])), float(undy(c[3][1][t])), [float(x) for x in va if x is not None], [float(x) for x in vs if x is not None]))
+                break
+    for key, (cc, text) in sorted(witnesses.items()):
+        found = True
+        ctx.violation(key, text, {'case': sx_str(cc), 'history': ['targets: %s' % [(float(undy(x)), float(undy(y))) for x, y in zip(cc[3][0], cc[3][1])], 'one call on all of them vs one call per target']})
+    for key, f in sorted(fail_keys.items()):
+        if key not in witnesses:
+            ctx.violation(key, 'the reuse conditions of KrigingSystem::estimate violate C10_cache_coherent (%s) and no sequence of targets exhibiting it was found' % (f,),
+                          {'instance': f, 'theorem': 'C10_ksys_cache_ok'}, found_input=False)
+    # besselk (static locals): the last call of a sequence against the same call in a fresh process
+    bcases = [[88, [[dy(rng.choice([0.25, 0.5, 1, 2, 5, 10])), dy(rng.choice([0, 0.25, 0.5, 0.75])), rng.randint(1, 4)] for _ in range(rng.randint(2, 5))]] for _ in range(30)]
+    rc, bi = run_impl(ctx, exe, write_cases(ctx, 'bessel', bcases))
+    for c, r in zip(bcases, bi):
+        ctx.count(sx_str(c), True)
+        if len(r) == 2 and r[0] != r[1]:
+            found = True
+            ctx.violation('besselk:static-locals-kept-across-calls', 'besselk%s returns %s after the calls %s and %s in a fresh process' % (c[1][-1], r[0], c[1][:-1], r[1]), {'case': sx_str(c)})
+            break
+    # mvndst: same arguments, several calls in one process (the first one is what a fresh process answers)
+    cases = load_corpus(ctx, 86) + [[86, n, 2000, 3, dy(rho)] for n in (3, 10, 21, 22, 25, 40) for rho in (0.25, 0.5)]
+    rc, impl = run_impl(ctx, exe, write_cases(ctx, 'mvn', cases), timeout=3000)
+    for c, r in zip(cases, impl):
+        ctx.count(sx_str(c), True)
+        if r and r != [[-996]] and any(x != r[0] for x in r[1:]):
+            found = True
+            ctx.violation('mvndst:quasi-random-sequence-kept-across-calls', 'mvndst(n=%d, same arguments) returns %s on successive calls of one process (a fresh process returns the first value)' % (c[1], [float(undy(x)) for x in r]),
+                          {'case': sx_str(c), 'history': ['mvndst(%d, ...)' % c[1]] * 2})
+            break
+    return found
+
 # =====================================================================================================================
 def translate_all(ctx):
     """regenerate coq/C10/gen/*.v from the sources; a translation error is a broken tie"""
@@ -1111,8 +1407,12 @@ def translate_all(ctx):
                       'the generated graph, hence every theorem about the class, is not tied to the code any more' % ex,
                       {'translator': 'translators/C10_kcgraph.py', 'error': str(ex)}, found_input=False)
     ctx.vt_tab = None; ctx.op_tab = None
+    ctx.ng_tab = None; ctx.st_tab = None; ctx.ks_tab = None
     for name, attr, genf, what in (('C10_vectort', 'vt_tab', 'VectorTOps.v', 'VectorT.hpp/VectorNumT.hpp'),
-                                   ('C10_optimpaths', 'op_tab', 'OptimPaths.v', 'the functions calling optimizationPreProcess')):
+                                   ('C10_optimpaths', 'op_tab', 'OptimPaths.v', 'the functions calling optimizationPreProcess'),
+                                   ('C10_neighgraph', 'ng_tab', 'NeighCache.v', 'the neighbourhood classes (include/Neigh, src/Neigh)'),
+                                   ('C10_statics', 'st_tab', 'Statics.v', 'the static variables of the scanned sources'),
+                                   ('C10_ksystem', 'ks_tab', 'KSysCache.v', 'the reuse conditions of KrigingSystem::estimate')):
         try:
             text, tab = load_translator(name).translate(REPO)
             write_if_changed(os.path.join(VERIF, 'coq', 'C10', 'gen', genf), text)
@@ -1142,6 +1442,9 @@ def run(ctx):
     found |= carrier_optim(ctx, runner, exe)
     found |= carrier_krig(ctx, runner, exe)
     found |= carrier_memo(ctx, runner, exe)
+    found |= carrier_neigh(ctx, runner, exe)
+    found |= carrier_statics(ctx, runner, exe)
+    found |= carrier_ksys(ctx, runner, exe)
     if getattr(ctx, 'kc_fail_keys', None): ctx.level = 'partial'
     ctx.cov['rule'] = ('VectorT: a case is a program over 2-4 VectorDouble handles, compared after every statement with the copy-on-write model '
                        'and with independent values; RNG: a case is a sequence of seed/draw calls from a fresh process, compared bit-exactly; covariance cache: a '
